@@ -62,7 +62,10 @@ Definition fastq_iter (files : list (list str)) : list pair :=
   read_all (S (length (hd [] files))) files.
 
 (* ------------------------------------------------------------------ strategies and outcomes *)
-Record arec := mkArec { a_cell : str; a_text : str }.   (* str(record) and f"{bi}.{MX}" *)
+(* one record of an accepted list as FastqHandle.write meets it: a_ok = the cell key (per-cell mode) and str(record)
+   can be computed; then a_text = str(record), a_cell = f"{bi}.{MX}".  a_ok = false: serialising it raises, a_text =
+   the exception class name *)
+Record arec := mkArec { a_ok : bool; a_cell : str; a_text : str }.
 
 Inductive outcome :=
 | Accept (recs : list arec)
@@ -100,6 +103,17 @@ Definition write_target (cfg : config) (p j : nat) (recs : list arec) : list eve
   if c_sc cfg
   then map (fun mr => mkEv true (a_cell (snd mr)) (fst mr) p j (a_text (snd mr))) (combine (seq 0 2) recs)
   else map (fun mr => mkEv true [] (fst mr) p j (a_text (snd mr))) (combine (seq 0 (c_nh cfg)) recs).
+
+(* write() serialises and writes record by record: the records zip() pairs with a handle, up to the first one that
+   cannot be serialised (None: all could) *)
+Definition touched (cfg : config) (recs : list arec) : list arec :=
+  firstn (if c_sc cfg then 2%nat else c_nh cfg) recs.
+
+Fixpoint ok_prefix (l : list arec) : list arec * option str :=
+  match l with
+  | [] => ([], None)
+  | r :: t => if a_ok r then (let (pre, k) := ok_prefix t in (r :: pre, k)) else ([], Some (a_text r))
+  end.
 
 Definition write_reject (cfg : config) (p j : nat) (texts : list str) : list event :=
   map (fun mt => mkEv false [] (fst mt) p j (snd mt)) (combine (seq 0 (c_nh cfg)) texts).
@@ -165,7 +179,15 @@ Section Loader.
     | f :: ss' =>
         match f reads with
         | Accept recs =>
-            strat_loop p reads (S j) ss' (tr ++ write_target cfg p j recs) (bump j ys)
+            match ok_prefix (touched cfg recs) with
+            | (_, None) => strat_loop p reads (S j) ss' (tr ++ write_target cfg p j recs) (bump j ys)
+            | (pre, Some kind) =>
+                (* targetFile.write raised after writing pre: the generic-exception arm *)
+                if c_legacy cfg then strat_loop p reads (S j) ss' (tr ++ write_target cfg p j pre) (bump j ys)
+                else strat_loop p reads (S j) ss'
+                       (tr ++ write_target cfg p j pre ++
+                        (if c_rejects cfg then write_reject cfg p j (generic_texts reads kind) else [])) ys
+            end
         | Reject reason =>
             if c_rejects cfg then
               match reject_texts rejhdr reads reason with
@@ -244,10 +266,10 @@ Fixpoint pair_eqb (a b : pair) : bool :=
   | _, _ => false
   end.
 
-(* outcome: (0 recs) | (1 reason) | (2 kind);  rec = (cell text) *)
+(* outcome: (0 recs) | (1 reason) | (2 kind);  rec = (ok cell text) *)
 Definition dec_outcome (v : Val) : outcome :=
   match getZ (nthV 0 v) with
-  | 0 => Accept (map (fun r => mkArec (dec_str (nthV 0 r)) (dec_str (nthV 1 r))) (getL (nthV 1 v)))
+  | 0 => Accept (map (fun r => mkArec (getB (nthV 0 r)) (dec_str (nthV 1 r)) (dec_str (nthV 2 r))) (getL (nthV 1 v)))
   | 1 => Reject (dec_str (nthV 1 v))
   | _ => Raise (dec_str (nthV 1 v))
   end.
